@@ -178,7 +178,7 @@ func ruleAdvance(c *Ctx) {
 		}
 		var writes []*ssa.Call
 		calls(f, func(ci ssa.CallInstruction) {
-			if call, ok := ci.(*ssa.Call); ok && calleeIs(&call.Call, modPath, "DataFile", "WriteAt") {
+			if call, ok := ci.(*ssa.Call); ok && isRecordWrite(c, call) {
 				writes = append(writes, call)
 			}
 		})
@@ -187,12 +187,12 @@ func ruleAdvance(c *Ctx) {
 		}
 		// edges on which the write's error is nil
 		okEdges := nilEdges(f, true, func(x ssa.Value) bool {
-			ex, ok := resolve1(x).(*ssa.Extract)
-			if !ok {
-				return false
-			}
+			rx := resolve1(x)
 			for _, w := range writes {
-				if ex.Tuple == ssa.Value(w) {
+				if ex, ok := rx.(*ssa.Extract); ok && ex.Tuple == ssa.Value(w) {
+					return true
+				}
+				if rx == ssa.Value(w) {
 					return true
 				}
 			}
@@ -261,17 +261,17 @@ func ruleCommitSet(c *Ctx) {
 			}
 			var writes []*ssa.Call
 			calls(ff, func(ci ssa.CallInstruction) {
-				if call, ok := ci.(*ssa.Call); ok && calleeIs(&call.Call, modPath, "DataFile", "WriteAt") {
+				if call, ok := ci.(*ssa.Call); ok && isRecordWrite(c, call) {
 					writes = append(writes, call)
 				}
 			})
 			okEdges := nilEdges(ff, true, func(x ssa.Value) bool {
-				ex, ok := resolve1(x).(*ssa.Extract)
-				if !ok {
-					return false
-				}
+				rx := resolve1(x)
 				for _, w := range writes {
-					if ex.Tuple == ssa.Value(w) {
+					if ex, ok := rx.(*ssa.Extract); ok && ex.Tuple == ssa.Value(w) {
+						return true
+					}
+					if rx == ssa.Value(w) {
 						return true
 					}
 				}
@@ -328,4 +328,25 @@ func explanationOf(vdir string, pr *Property) string {
 		return t.Text + " NOT COVERED: " + pr.NotCov
 	}
 	return base
+}
+
+// isRecordWrite: the call writes a record to a data file: DataFile.WriteAt itself, or a module helper
+// with an error result that passes an Entry.Encode result to it (its nil error means the write succeeded).
+func isRecordWrite(c *Ctx, call *ssa.Call) bool {
+	if calleeIs(&call.Call, modPath, "DataFile", "WriteAt") {
+		return true
+	}
+	cal := call.Call.StaticCallee()
+	if cal == nil || !c.P.inModule(cal) || cal.Blocks == nil || cal.Pkg != c.P.Main || errResultIndex(cal) < 0 {
+		return false
+	}
+	hit := false
+	calls(cal, func(ci ssa.CallInstruction) {
+		if calleeIs(ci.Common(), modPath, "DataFile", "WriteAt") && len(ci.Common().Args) >= 2 {
+			if e, ok := resolve1(ci.Common().Args[1]).(*ssa.Call); ok && calleeIs(&e.Call, modPath, "Entry", "Encode") {
+				hit = true
+			}
+		}
+	})
+	return hit
 }
